@@ -100,12 +100,17 @@ def run(ctx):
         if quick:
             allc, _ = sc.slice_cases(allc, 1500, ctx.seed + 2)
         sc.run_family(ctx, sc.with_flavors(allc, flavors), "ageing family %s" % name, CLAUSES, extra_sig=xsig)
+    # "a persistently failing entry cannot starve the others": one path keeps failing for 30 fair rounds (family shared with
+    # C10); by then everything else has been synchronised (OthersNotStarved, Trace_Sys!TProgress)
+    from . import c10
+    st = c10.stuck_cases(ctx, flavors, 300 if quick else None)
+    sc.run_family(ctx, st, "a persistently failing entry does not starve the others", {"OthersNotStarved"}, extra_sig=xsig)
 
 
 def replay(ctx, rep):
     if "sched" in rep["case"]:
         raise MachineryError("scheduling configurations are re-enumerated by every run")
-    sc.replay_case(ctx, rep, CLAUSES)
+    sc.replay_case(ctx, rep, CLAUSES | {"OthersNotStarved"})
 
 
 if __name__ == "__main__":
